@@ -245,6 +245,8 @@ func GetKeyFields(fields []string) (allFields []string, nonRootFields []string) 
 
 	for _, field := range fields {
 		switch {
+		case field == "":
+			// an empty field name passes validation; it names nothing
 		case field[0] == RootPrefixFirstChar && strings.HasPrefix(field, RootPrefix):
 			// If the field starts with "root.", add it to rootFields
 			rootFields = append(rootFields, field[len(RootPrefix):])
